@@ -211,7 +211,7 @@ def math_filter(_filter: FilterT) -> FilterT:
 
         try:
             return _filter(val, *args, **kwargs)
-        except TypeError as err:
+        except (TypeError, ValueError, ArithmeticError) as err:
             raise FilterArgumentError(err, token=None) from err
 
     return wrapper
